@@ -9,13 +9,15 @@ import (
 	"sort"
 	"strings"
 
+	"golang.org/x/tools/go/ssa"
+
 	"stgverif/internal/core"
 )
 
 func init() { Registry["C08"] = c08; Registry["C09"] = c09 }
 
 func c08(c *core.Ctx) map[string]interface{} {
-	c.Explanation = "Static pairing check of the generated NAS codec (C08), on the AST + types of all 45 message files. Decided: (R8.dispatch) each of the 44 message-type constants has exactly one case in the decode and one in the encode switch of its family, the decode case allocates New<X> into field <X> and calls Decode<X>, the encode case calls Encode<X> of the same message, both switches end in an error default, an unknown EPD is an error; (R8.mand) the mandatory part of Encode<X> and Decode<X> is the same sequence of (IE, Len/Value) tokens, covers every non-pointer field of the struct in declaration order, and every length-prefixed buffer is sized (SetLen) before it is read; (R8.opt) every optional IE has exactly one `if a.F != nil` block in Encode<X> and one case in Decode<X> keyed by its own <X><F>Type constant, the two sides use the same format (half-octet / TV / TLV), the constructor is New<F>, length-prefixed fixed arrays are sliced by Len on both sides, IEI constants are pairwise distinct within a message and half-octet IEIs are 8..15 while full IEIs are below 0x80 (the decoder's nibble normalisation depends on it); (R8.loop) every Decode<X> walks its optional part with `for buffer.Len() > 0`, one IEI octet per iteration and the one uniform half-octet normalisation (deviant detection across the 45 siblings). NOT decided: equality for particular values (e.g. capacity limits of fixed arrays, Len fields that disagree with the buffer they describe)."
+	c.Explanation = "Static pairing check of the generated NAS codec (C08), on the AST + types of all 45 message files. Decided: (R8.dispatch) each of the 44 message-type constants has exactly one case in the decode and one in the encode switch of its family, the decode case allocates New<X> into field <X> and calls Decode<X>, the encode case calls Encode<X> of the same message, both switches end in an error default, an unknown EPD is an error; (R8.mand) the mandatory part of Encode<X> and Decode<X> is the same sequence of (IE, Len/Value) tokens, covers every non-pointer field of the struct in declaration order, and every length-prefixed buffer is sized (SetLen) before it is read; (R8.opt) every optional IE has exactly one `if a.F != nil` block in Encode<X> and one case in Decode<X> keyed by its own <X><F>Type constant, the two sides use the same format (half-octet / TV / TLV), the constructor is New<F>, length-prefixed fixed arrays are sliced by Len on both sides, IEI constants are pairwise distinct within a message and half-octet IEIs are 8..15 while full IEIs are below 0x80 (the decoder's nibble normalisation depends on it); (R8.loop) every Decode<X> walks its optional part with `for buffer.Len() > 0`, one IEI octet per iteration and the one uniform half-octet normalisation (deviant detection across the 45 siblings). (R8.fresh) PlainNasEncode returns the contents of a buffer created by the same call and retained nowhere (no pool, cache or package-level scratch buffer whose reuse would change an earlier result); (R9.acc.*) the accessors of the 151 IE value types, as in C09: Get/Set pairs address the same octets and bits, SetLen stores the length it is given and sizes Buffer to exactly that many octets (the decoder relies on both). NOT decided: equality for particular values (e.g. capacity limits of fixed arrays, Len fields that disagree with the buffer they describe)."
 	c.Assumptions = []string{"encoding/binary.Write/Read move exactly the octets of the operand they are given"}
 	m := buildNasModel(c)
 	if len(m.Msgs) < 40 {
@@ -23,6 +25,8 @@ func c08(c *core.Ctx) map[string]interface{} {
 	}
 	r8dispatch(c, m)
 	r8pairs(c, m)
+	r8fresh(c)
+	r9acc(c)
 	return map[string]interface{}{"messages_modelled": len(m.Msgs)}
 }
 
@@ -399,5 +403,110 @@ func r8pairs(c *core.Ctx, m *nasModel) {
 	}
 	if len(loops) == 1 {
 		c.Ok(RL, "nasMessage:all-45-loops-identical", token.NoPos, fmt.Sprintf("%d decoders share one loop preamble", bestN))
+	}
+}
+
+// ---------------------------------------------------------------- R8.fresh
+// The encoded bytes belong to the caller: PlainNasEncode returns the contents of a
+// buffer created by this very call and kept by nobody else. A pooled, cached or
+// package-level buffer would make an earlier result change when the next message is
+// encoded (the bytes of message A are no longer the encoding of A).
+func r8fresh(c *core.Ctx) {
+	const R = "R8.fresh"
+	c.Rule(R, "PlainNasEncode returns the bytes of a buffer allocated by the same call and retained nowhere else")
+	fn := mustFunc(c, pNas, "Message.PlainNasEncode")
+	p := core.NewPather(fn)
+	n := 0
+	// result values, through the result slots a function with defer spills them to
+	type resVal struct {
+		v   ssa.Value
+		pos token.Pos
+	}
+	var results []resVal
+	for _, b := range fn.Blocks {
+		for _, in := range b.Instrs {
+			r, ok := in.(*ssa.Return)
+			if !ok || len(r.Results) != 2 {
+				continue
+			}
+			v := r.Results[0]
+			if ld, isLoad := v.(*ssa.UnOp); isLoad && ld.Op == token.MUL {
+				if slot, isAlloc := ld.X.(*ssa.Alloc); isAlloc {
+					for _, ref := range core.Referrers(slot) {
+						if st, isSt := ref.(*ssa.Store); isSt && st.Addr == ssa.Value(slot) {
+							dup := false
+							for _, o := range results {
+								if o.v == st.Val {
+									dup = true
+								}
+							}
+							if !dup {
+								results = append(results, resVal{st.Val, st.Pos()})
+							}
+						}
+					}
+					continue
+				}
+			}
+			results = append(results, resVal{v, r.Pos()})
+		}
+	}
+	for _, r := range results {
+		{
+			v := r.v
+			if k, isConst := v.(*ssa.Const); isConst && k.Value == nil {
+				continue
+			}
+			n++
+			key := fmt.Sprintf("nas.Message.PlainNasEncode:return#%d", n)
+			call, isCall := v.(*ssa.Call)
+			if !isCall || core.CalleeName(&call.Call) != "bytes.Buffer.Bytes" {
+				c.SoftUndecided("PlainNasEncode: result %s is not the contents of a bytes.Buffer", clip(p.Path(v)))
+				continue
+			}
+			buf := call.Call.Args[0]
+			al, isAlloc := buf.(*ssa.Alloc)
+			if nb, isNB := buf.(*ssa.Call); isNB && core.CalleeName(&nb.Call) == "bytes.NewBuffer" {
+				// bytes.NewBuffer(nil) / bytes.NewBuffer(make(...)) is as fresh as new(bytes.Buffer)
+				arg := nb.Call.Args[0]
+				_, isMake := arg.(*ssa.MakeSlice)
+				if sl, isSl := arg.(*ssa.Slice); isSl {
+					_, isMake = sl.X.(*ssa.Alloc) // make with constant size: a local array
+				}
+				k, isConst := arg.(*ssa.Const)
+				if isMake || (isConst && k.Value == nil) {
+					c.Ok(R, key, r.pos, "fresh bytes.NewBuffer")
+					continue
+				}
+			}
+			if !isAlloc {
+				if strings.Contains(p.Path(buf), "sync.Pool") || strings.Contains(p.Path(buf), "global:") || strings.HasPrefix(p.Path(buf), "p0") {
+				} else {
+					c.SoftUndecided("PlainNasEncode: origin of the result buffer not recognised (%s)", clip(p.Path(buf)))
+					continue
+				}
+				c.Fail(R, key, r.pos, "the returned bytes are the contents of %s, which is not a buffer created by this call: a later encode overwrites an earlier result", clip(p.Path(buf)))
+				continue
+			}
+			bad := ""
+			for _, ref := range core.Referrers(al) {
+				ci, isCI := ref.(ssa.CallInstruction)
+				if !isCI {
+					if st, isSt := ref.(*ssa.Store); isSt && st.Val == ssa.Value(al) {
+						bad = "stored to " + p.Path(st.Addr)
+					}
+					continue
+				}
+				name := core.CalleeName(ci.Common())
+				if strings.HasPrefix(name, "bytes.") || strings.HasPrefix(name, "encoding/binary.") || strings.HasPrefix(name, pNas+".") || strings.HasPrefix(name, pNasM+".") {
+					continue
+				}
+				bad = "handed to " + shortName(name)
+			}
+			c.Check(bad == "", R, key, r.pos, "fresh buffer, used only by the encoders", "the buffer whose bytes are returned is %s: it outlives the call and its storage is reused, so an earlier result changes when a later message is encoded", bad)
+		}
+	}
+	if n == 0 {
+		c.SoftUndecided("PlainNasEncode: no return of encoded bytes found")
 	}
 }
